@@ -8,7 +8,9 @@ package main
 
 import (
 	"fmt"
+	"os"
 	"sort"
+	"strconv"
 	"strings"
 
 	"github.com/crossplane/crossplane/internal/controller/apiextensions/claim"
@@ -373,10 +375,10 @@ func c08RaceSchedule(r *Rng) func(w *c08World, i int) (c08Step, bool) {
 	}
 }
 
-// c08Class summarises a run: family / teardown writes and waits that happened /
-// environment and fault kinds that occurred (d=user delete by kind, g=GC step that
-// changed something, u=third-party finalizer removal, c=crash, f=injected error or
-// conflict, x=reconcile of an object that no longer exists).
+// c08Class classifies a run by ONE of its features: its family, a teardown write or wait
+// that happened ("did:"), an environment step that had an effect ("env:"), or a fault
+// kind that was injected ("fault:"). A run in which no teardown write and no wait
+// happened is trivial.
 func c08Class(fam string, s c08Scn, o c08Obs) string {
 	tags := map[string]bool{}
 	env := map[string]bool{}
@@ -445,19 +447,44 @@ func c08Class(fam string, s c08Scn, o c08Obs) string {
 			tags["wait"] = true
 		}
 	}
-	join := func(m map[string]bool) string {
+	// One feature of the run is reported as its class, chosen round-robin by the emission
+	// counter, so that the (truncated) class histogram of the evidence shows every kind of
+	// write, wait, environment step and fault that the runs contain.
+	feats := []string{"family:" + fam}
+	for _, m := range []map[string]bool{tags, env} {
 		var ts []string
 		for t := range m {
 			ts = append(ts, t)
 		}
 		sort.Strings(ts)
-		return strings.Join(ts, "+")
+		for _, t := range ts {
+			switch {
+			case strings.HasPrefix(t, "d:"):
+				feats = append(feats, "env:user-delete-"+t[2:])
+			case t == "g":
+				feats = append(feats, "env:gc-step")
+			case t == "u":
+				feats = append(feats, "env:finalizer-removed-by-third-party")
+			case t == "c":
+				feats = append(feats, "fault:crash")
+			case t == "f":
+				feats = append(feats, "fault:error-or-conflict")
+			case t == "x":
+				feats = append(feats, "env:reconcile-of-absent-object")
+			default:
+				feats = append(feats, "did:"+t)
+			}
+		}
 	}
+	c08Emitted++
+	f := feats[c08Emitted%len(feats)]
 	if len(tags) == 0 {
-		return "trivial/" + fam + "/" + join(env)
+		return "trivial/" + fam
 	}
-	return fam + "/" + join(tags) + "/" + join(env)
+	return f
 }
+
+var c08Emitted int
 
 // ---------------------------------------------------------------- exhaustive small scopes
 
@@ -599,7 +626,11 @@ func c08Exhaustive(c *Ctx, variant int, base c08Scn, depth int, outcomes []strin
 		})
 		if n >= depth || len(enabled) == 0 {
 			count++
-			c.Emit(s2, obs, mons, fmt.Sprintf("exh%d/%s", variant, strings.TrimPrefix(c08Class("x", s2, obs), "x/")))
+			cls := c08Class(fmt.Sprintf("world%d", variant), s2, obs)
+			if !strings.HasPrefix(cls, "trivial") {
+				cls = "exhaustive:" + cls
+			}
+			c.Emit(s2, obs, mons, cls)
 			return
 		}
 		for _, e := range enabled {
@@ -626,12 +657,21 @@ func init() {
 			for v := j; v < len(ws); v += 8 {
 				c08Exhaustive(c, v, ws[v], 6, []string{"ok", "fail", "conflict", "crashBefore", "crashAfter"}, 60000)
 			}
+			if d := os.Getenv("C08_DEEP"); d != "" {
+				// measurement aid: fault-free interleavings to a larger depth
+				n, _ := strconv.Atoi(d)
+				for v := j; v < len(ws); v += 8 {
+					k := c08Exhaustive(c, v, ws[v], n, []string{"ok"}, 400000)
+					fmt.Fprintf(os.Stderr, "world %d depth %d: %d\n", v, n, k)
+				}
+			}
 		}
 		for i := 0; i < c.N; i++ {
 			r := c.Rng.Fork()
 			if r.Chance(1, 60) {
 				s2, obs, mons := c08Run(c08RaceWorld(r), c08RaceSchedule(r))
-				c.Emit(s2, obs, mons, "liveclaim/"+c08Class("race", s2, obs))
+				_ = c08Class("race", s2, obs)
+				c.Emit(s2, obs, mons, "liveclaim:race-neighbourhood")
 				continue
 			}
 			s, fam := c08GenWorld(r)
@@ -641,7 +681,7 @@ func init() {
 			s2, obs, mons := c08Run(s, c08RandomSchedule(r, n, liveClaims))
 			cls := c08Class(fam, s2, obs)
 			if liveClaims {
-				cls = "liveclaim/" + cls
+				cls = "liveclaim:" + fam
 			}
 			c.Emit(s2, obs, mons, cls)
 		}
